@@ -183,6 +183,25 @@ func init() {
 			return nil, fmt.Errorf("vm: applyBlock not found")
 		}
 		f.strList("vmApplyStages", callsInOrder(fd, map[string]bool{"enoughPlasma": true, "applySend": true, "applyReceive": true, "generateEmbeddedReceive": true}))
+		// does the contract-receive case keep the regenerated descendant blocks (fix 48b97c9)?
+		adopts := false
+		ast.Inspect(fd.Body, func(n ast.Node) bool {
+			as, ok := n.(*ast.AssignStmt)
+			if !ok || len(as.Lhs) != 1 || len(as.Rhs) != 1 {
+				return true
+			}
+			l, ok1 := as.Lhs[0].(*ast.SelectorExpr)
+			r, ok2 := as.Rhs[0].(*ast.SelectorExpr)
+			if ok1 && ok2 && l.Sel.Name == "DescendantBlocks" && r.Sel.Name == "DescendantBlocks" {
+				li, _ := l.X.(*ast.Ident)
+				ri, _ := r.X.(*ast.Ident)
+				if li != nil && ri != nil && li.Name == "block" && ri.Name == "generated" {
+					adopts = true
+				}
+			}
+			return true
+		})
+		f.raw("def vmAdoptsRegeneratedDescendants : Bool := %v\n", adopts)
 		fd = findMethod(vmf, "VM", "applySend")
 		if fd == nil {
 			return nil, fmt.Errorf("vm: applySend not found")
